@@ -958,7 +958,11 @@ int vorbis_synthesis_pcmout(vorbis_dsp_state *v,float ***pcm){
 }
 
 int vorbis_synthesis_read(vorbis_dsp_state *v,int n){
-  if(n && v->pcm_returned+n>v->pcm_current)return(OV_EINVAL);
+  /* nothing is pending on a decoder that has not produced a block yet
+     (pcm_returned==-1); accepting the read would take the cursor off
+     its marker and expose the unwritten buffer */
+  if(n && (v->pcm_returned<0 || v->pcm_returned+n>v->pcm_current))
+    return(OV_EINVAL);
   v->pcm_returned+=n;
   return(0);
 }
